@@ -540,12 +540,33 @@ func checkV12Auth(c *fw.Ctx) {
 			}
 			known := func(atom string) bool { _, ok := createAtoms(atom, asg{}); return ok }
 			bad := 0
-			enumerate([]tvar{{"createType", boolv}, {"emptyStateKey", boolv}}, func(a asg) {
+			// conditions the rule does not know are free: the id string must be the prescribed one
+			// whichever way they fall
+			vars := []tvar{{"createType", boolv}, {"emptyStateKey", boolv}}
+			freeName := map[string]string{}
+			for _, r := range rows {
+				for _, term := range fw.ExpandDNF(r.Cond, known) {
+					for _, l := range term {
+						if _, ok := createAtoms(l.Atom, asg{}); !ok {
+							if _, seen := freeName[l.Atom]; !seen && len(freeName) < 4 {
+								freeName[l.Atom] = fmt.Sprintf("free%d", len(freeName)+1)
+								vars = append(vars, tvar{freeName[l.Atom], boolv})
+							}
+						}
+					}
+				}
+			}
+			enumerate(vars, func(a asg) {
 				want := "*recv.eventV2.eventV1.eventFields.RoomID"
 				if a["createType"] == "true" && a["emptyStateKey"] == "true" {
 					want = `("!" + (*gmsl.eventV2).EventID(recv.eventV2)[1:])`
 				}
-				env := func(atom string) (bool, bool) { return createAtoms(atom, a) }
+				env := func(atom string) (bool, bool) {
+					if n, ok := freeName[atom]; ok {
+						return a[n] == "true", true
+					}
+					return createAtoms(atom, a)
+				}
 				for _, r := range rows {
 					unk := map[string]bool{}
 					if !evalDNF(fw.ExpandDNF(r.Cond, known), env, unk) {
